@@ -201,6 +201,10 @@ def shard(spec) -> core.Acc:
             acc.nontrivial += 1
             check_doc(acc, context(ROLES[role](s)), CORNER_CONFIGS[:2] if length >= 3 else CORNER_CONFIGS, length <= 1,
                       {'gen': 'role', 'role': role})
+            if length <= 2:
+                # the same context as a named block serialised on its own: start_indent / indent_braces take effect
+                check_doc(acc, [('B', 'wrap', context(ROLES[role](s)))], CORNER_CONFIGS[2:], False, {'gen': 'role', 'role': role},
+                          single_block_root=True)
         acc.sample({'role': role, 'string': prefix + sigma[0] * rest}, 1)
     elif kind == 'pair':
         _, a, vmax = spec
